@@ -330,6 +330,9 @@ def clip_rules(ctx, d2, vle):
                 carriers.add(e.target)
         used = fr is not None and any(e.kind == 'store' and vle_side(e.target) and any(isinstance(x, ast.Name) and x.id in carriers for x in ast.walk(e.stmt.value))
                                       for e in p.events)
+        # ... or through the paired-store helper set_flows(vapour row, liquid row, index, vapour amounts, total) (its pairing is D1's subject)
+        used = used or (fr is not None and any(e.kind == 'call' and e.target == 'set_flows' and len(e.node.args) == 5
+                                                and any(isinstance(x, ast.Name) and x.id in carriers for x in ast.walk(e.node.args[3])) for e in p.events))
         if not used:
             bad = 'the clamped fraction is not the one used in the phase stores'
         if hi is True and sf != Form.const(1):
